@@ -7,6 +7,11 @@ same passes, so the comparison is modulo exactly these behaviour-preserving rewr
               body with the arguments substituted, `return False` -> `continue` (conditions below)
               `self._h(a, b)` where _h's body is a single `return <expr>` and every argument is a plain name,
               attribute chain or constant  ->  <expr> with the arguments substituted
+              `self._h(a, b)` as a statement, where _h has no return statement  ->  its body
+              a module-level private function `def _f(p): return <expr>` used as a value (key=_f)  ->
+              `lambda p: <expr>`
+  items       `for k, v in d.items(): ...` with k not used anywhere  ->  `for v in d.values(): ...`
+  guard       in a loop body, `if T: continue` followed by the rest R of the body  ->  `if not T: R`
   setdefault  `v = d.get(k, None)` / `if v is None: v = d[k] = <empty list/dict display>`  ->
               `v = d.setdefault(k, <display>)`   (equal as long as d never stores None, which is what a model
               that reads d[k] as a list assumes anyway)
@@ -14,8 +19,9 @@ same passes, so the comparison is modulo exactly these behaviour-preserving rewr
   ifmerge     `if A: S elif B: S`  ->  `if A or B: S`   (same statements S; `or` short-circuits like elif)
   noteq       `a != b`  ->  `not a == b`  when one operand is a tuple/list display or a constant
   strip       docstrings, bare string statements, logger.<x>(...) calls, comments (not in the AST anyway)
-  alpha       locals (every name the function binds, other than its parameters; lambda parameters;
-              `except ... as e` names) renamed _v0, _v1, ... in the order of their first binding
+  alpha       locals (every name the function binds, other than its parameters; `except ... as e` names)
+              renamed _v0, _v1, ... in the order of their first binding; the parameters of every lambda
+              renamed within that lambda
 
 Anything else is left alone: a change of a test, of an operand, of the order of statements, of a constant
 still shows up as a mismatch (fail closed)."""
@@ -172,6 +178,19 @@ def _inline_expr(h, call, caller_names):
     return _Subst(env).visit(body[0].value)
 
 
+def _inline_proc(h, call, caller_names):
+    """statements replacing the statement `self.h(args)`"""
+    params, env = _helper_params(h, call)
+    body = strip(copy.deepcopy(h.body))
+    if any(isinstance(n, ast.Return) for st in body for n in ast.walk(st)):
+        raise NotInlinable('helper returns')
+    _check_body(h, body, params, env, caller_names)
+    if not all(_simple(env[p]) for p in params):
+        raise NotInlinable('argument with effects')
+    sub = _Subst(env)
+    return [ast.fix_missing_locations(sub.visit(st)) for st in body]
+
+
 def _self_call(e, helpers):
     if (isinstance(e, ast.Call) and isinstance(e.func, ast.Attribute) and isinstance(e.func.value, ast.Name)
             and e.func.value.id == 'self' and e.func.attr in helpers):
@@ -179,13 +198,22 @@ def _self_call(e, helpers):
     return None
 
 
-def inline_helpers(fn, cls):
+def inline_helpers(fn, cls, module=None):
     """private methods of the same class that the function calls as `if not self._h(...): continue` or as an
     expression helper are inlined; a call that does not meet the conditions is left as it is"""
     helpers = {n.name: n for n in cls.body
                if isinstance(n, ast.FunctionDef) and n.name.startswith('_') and not n.name.startswith('__')
                and n is not fn}
-    if not helpers:
+    mfuncs = {}
+    if module is not None:
+        for n in module.body:
+            if (isinstance(n, ast.FunctionDef) and n.name.startswith('_') and not n.decorator_list
+                    and len(strip(copy.deepcopy(n.body))) == 1 and isinstance(strip(copy.deepcopy(n.body))[0], ast.Return)
+                    and strip(copy.deepcopy(n.body))[0].value is not None
+                    and not (n.args.vararg or n.args.kwarg or n.args.kwonlyargs or n.args.defaults
+                             or getattr(n.args, 'posonlyargs', []))):
+                mfuncs[n.name] = n
+    if not helpers and not mfuncs:
         return
     caller_names = _names(fn) | {a.arg for a in fn.args.args}
 
@@ -202,6 +230,14 @@ def inline_helpers(fn, cls):
                     continue
                 except NotInlinable:
                     pass
+            if isinstance(st, ast.Expr):
+                h = _self_call(st.value, helpers)
+                if h is not None:
+                    try:
+                        out.extend(stmts(_inline_proc(h, st.value, caller_names)))
+                        continue
+                    except NotInlinable:
+                        pass
             for f in ('body', 'orelse', 'finalbody'):
                 if hasattr(st, f) and isinstance(getattr(st, f), list):
                     setattr(st, f, stmts(getattr(st, f)))
@@ -213,6 +249,8 @@ def inline_helpers(fn, cls):
 
     fn.body = stmts(fn.body)
 
+    bound_here = _bound(fn) | {a.arg for a in fn.args.args}
+
     class Expr(ast.NodeTransformer):
         def visit_Call(self, n):
             self.generic_visit(n)
@@ -222,6 +260,18 @@ def inline_helpers(fn, cls):
                     return _inline_expr(h, n, caller_names)
                 except NotInlinable:
                     return n
+            return n
+
+        def visit_Name(self, n):
+            # a module-level `def _f(p): return e` used as a value is `lambda p: e` (the name must not be
+            # rebound in the function, and e may only mention its parameters and module-level names)
+            if isinstance(n.ctx, ast.Load) and n.id in mfuncs and n.id not in bound_here:
+                h = mfuncs[n.id]
+                e = copy.deepcopy(strip(copy.deepcopy(h.body))[0].value)
+                free = _names(e) - {a.arg for a in h.args.args}
+                if free & bound_here:
+                    return n
+                return ast.Lambda(args=copy.deepcopy(h.args), body=e)
             return n
     Expr().visit(fn)
     ast.fix_missing_locations(fn)
@@ -264,6 +314,16 @@ def _uses(name, nodes):
     return sum(1 for st in nodes for n in ast.walk(st) if isinstance(n, ast.Name) and n.id == name)
 
 
+def _unguard(body):
+    for i, st in enumerate(body):
+        if (isinstance(st, ast.If) and not st.orelse and len(st.body) == 1 and isinstance(st.body[0], ast.Continue)
+                and i + 1 < len(body)):
+            t = st.test
+            t = t.operand if isinstance(t, ast.UnaryOp) and isinstance(t.op, ast.Not) else ast.UnaryOp(op=ast.Not(), operand=t)
+            return body[:i] + [ast.If(test=t, body=_unguard(body[i + 1:]), orelse=[])]
+    return body
+
+
 def _rewrite_block(lst, fn):
     out = []
     i = 0
@@ -290,6 +350,17 @@ def _rewrite_block(lst, fn):
         if isinstance(st, ast.Try):
             for hd in st.handlers:
                 hd.body = _rewrite_block(hd.body, fn)
+        # items: for k, v in X.items() with k unused -> for v in X.values()
+        if (isinstance(st, ast.For) and isinstance(st.target, ast.Tuple) and len(st.target.elts) == 2
+                and all(isinstance(e, ast.Name) for e in st.target.elts)
+                and isinstance(st.iter, ast.Call) and isinstance(st.iter.func, ast.Attribute)
+                and st.iter.func.attr == 'items' and not st.iter.args and not st.iter.keywords
+                and _uses(st.target.elts[0].id, [fn]) == 1):
+            st.target = st.target.elts[1]
+            st.iter.func.attr = 'values'
+        # guard: in a loop body, `if T: continue` + rest  ->  `if not T: rest`
+        if isinstance(st, (ast.For, ast.While)):
+            st.body = _unguard(st.body)
         # ifmerge (after the branches themselves were rewritten)
         while (isinstance(st, ast.If) and len(st.orelse) == 1 and isinstance(st.orelse[0], ast.If)
                and [dump(x) for x in st.body] == [dump(x) for x in st.orelse[0].body]):
@@ -327,10 +398,24 @@ def alpha(fn):
         if name not in params and name not in order and not name.startswith('HOLE_'):
             order.append(name)
 
-    def walk(n):
+    lam = [0]
+
+    def scope_lambdas(n):
+        for c in ast.iter_child_nodes(n):
+            scope_lambdas(c)
         if isinstance(n, ast.Lambda):
+            ren = {a.arg: '_L%d_%d' % (lam[0], i) for i, a in enumerate(n.args.args)}
+            lam[0] += 1
             for a in n.args.args:
-                bind(a.arg)
+                a.arg = ren[a.arg]
+            for m in ast.walk(n.body):
+                if isinstance(m, ast.Name) and m.id in ren:
+                    m.id = ren[m.id]
+
+    for st in fn.body:
+        scope_lambdas(st)
+
+    def walk(n):
         if isinstance(n, ast.ExceptHandler) and n.name:
             bind(n.name)
         if isinstance(n, ast.Name) and isinstance(n.ctx, (ast.Store, ast.Del)):
@@ -354,10 +439,10 @@ def alpha(fn):
     return ren
 
 
-def normalise(fn, cls=None):
+def normalise(fn, cls=None, module=None):
     """in place; returns the function"""
     if cls is not None:
-        inline_helpers(fn, cls)
+        inline_helpers(fn, cls, module)
     fn.body = strip(fn.body)
     fn.body = _rewrite_block(fn.body, fn)
     _NotEq().visit(fn)
